@@ -43,15 +43,19 @@ COLLECTORS = {
 }
 
 
-def _through_helper(c: ClassInfo, call: ast.AST) -> ast.AST:
+def _through_helper(c: ClassInfo, call: ast.AST, prog=None) -> ast.AST:
     """`self.m(args)` where m is a method of the class or of one of its bases whose body is a single `return <expr>`: the
-    returned expression with the arguments in place of the parameters (one level); any other node is returned as it is"""
+    returned expression with the arguments in place of the parameters (one level); any other node is returned as it is.
+    A method that a subclass of the class overrides is not expanded: for the instances of that subclass (which inherit the
+    caller) the call runs the override, and the version seen from here says nothing about it."""
     if not (isinstance(call, ast.Call) and isinstance(call.func, ast.Attribute) and isinstance(call.func.value, ast.Name) and call.func.value.id == 'self'):
         return call
     if call.func.attr == 'audit' or any(isinstance(a, ast.Starred) for a in call.args) or any(k.arg is None for k in call.keywords):
         return call
     g = c.resolve(call.func.attr)
     if g is None or 'staticmethod' in g.decorators() or 'classmethod' in g.decorators():
+        return call
+    if prog is not None and any(call.func.attr in sc.methods for sc in prog.subclasses(c)):
         return call
     body = strip_docstring(list(g.node.body))
     if len(body) != 1 or not isinstance(body[0], ast.Return) or body[0].value is None:
@@ -85,6 +89,17 @@ def _through_helper(c: ClassInfo, call: ast.AST) -> ast.AST:
     return ast.copy_location(Sub().visit(copy.deepcopy(body[0].value)), call)
 
 
+def _callee_resolved(f: FuncInfo, call: ast.AST) -> ast.AST:
+    """`m(args)` where m is a local bound once to a method (`m = super().audit`): the call written on what m names"""
+    if isinstance(call, ast.Call) and isinstance(call.func, ast.Name):
+        fn = inline_locals(f.node, call.func)
+        if isinstance(fn, ast.Attribute):
+            c2 = copy.copy(call)
+            c2.func = fn
+            return c2
+    return call
+
+
 def _may_reach_audit(prog, f: FuncInfo, depth: int = 4) -> bool:
     """some call in the body of f is named audit or has a computed callee, or runs (as far as names resolve; a method on a receiver
     of unknown class stands for every method of that name in the package) a function of the package for which this holds; what lies
@@ -101,6 +116,11 @@ def _may_reach_audit(prog, f: FuncInfo, depth: int = 4) -> bool:
                 if name is None or name in ('audit', 'getattr', 'eval', 'exec', 'map', 'methodcaller', 'attrgetter'):
                     return True
                 tg = prog.resolve_call(g, x)
+                if not tg and isinstance(x.func, ast.Name) and (any(isinstance(y, ast.Name) and y.id == x.func.id and isinstance(y.ctx, ast.Store) for y in ast.walk(g.node))
+                                                                or x.func.id in {a_.arg for a_ in ast.walk(g.node.args) if isinstance(a_, ast.arg)}):
+                    return True  # a call through a local name (a bound method kept in a variable, a parameter): a computed callee
+                if not tg and not isinstance(x.func, (ast.Attribute, ast.Name)):
+                    return True  # f(...)(...), table[k](...): computed as well
                 if not tg and isinstance(x.func, ast.Attribute):
                     tg = prog.methods_named(name)
                 for h in tg:
@@ -125,7 +145,7 @@ def audit_descends(prog, c: ClassInfo, f: FuncInfo) -> tuple[bool, str]:
     reach = []  # (cfg node, returned names it feeds, covers_all)
     for n in walk_no_nested(f.node):
         # super().audit(database) / Expression.audit(self, database)
-        nv = _through_helper(c, n.value) if isinstance(n, ast.Assign) else None
+        nv = _through_helper(c, _callee_resolved(f, n.value), prog) if isinstance(n, ast.Assign) else None
         if isinstance(n, ast.Assign) and isinstance(nv, ast.Call) and call_name(nv) == 'audit':
             recv = unparse(nv.func.value) if isinstance(nv.func, ast.Attribute) else ''
             args = [unparse(a) for a in nv.args] + [unparse(k.value) for k in nv.keywords]
@@ -160,7 +180,7 @@ def audit_descends(prog, c: ClassInfo, f: FuncInfo) -> tuple[bool, str]:
     # pure delegation: every return is `return <member>.audit(database)`
     deleg = []
     for r in rets:
-        v = _through_helper(c, r.value)
+        v = _through_helper(c, _callee_resolved(f, r.value), prog)
         if isinstance(v, ast.Call) and call_name(v) == 'audit' and isinstance(v.func, ast.Attribute) and db in [unparse(a) for a in v.args] + [unparse(k.value) for k in v.keywords]:
             recv = unparse(v.func.value)
             src = [a for a in walk_no_nested(f.node) if isinstance(a, ast.Assign) and isinstance(a.targets[0], ast.Tuple) and recv in [unparse(x) for x in a.targets[0].elts] and unparse(a.value) == 'self.selected()']
@@ -175,7 +195,7 @@ def audit_descends(prog, c: ClassInfo, f: FuncInfo) -> tuple[bool, str]:
             return False, f'returns {unparse(r.value)}'
         if isinstance(r.value, ast.Call):
             # return expr.audit(database)
-            if call_name(_through_helper(c, r.value)) == 'audit':
+            if call_name(_through_helper(c, _callee_resolved(f, r.value), prog)) == 'audit':
                 continue
             return False, f'returns {unparse(r.value)}'
         names = [unparse(x) for x in r.value.elts]
@@ -299,11 +319,32 @@ def _breaks(lp) -> bool:
     return False
 
 
-def _stale_loop_variables(f, every: bool = False, deciding_only: bool = True):
+def _ends(stmts: list[ast.stmt]) -> bool:
+    """the statements never fall through: they end with return / raise (on both arms of a final if)"""
+    if not stmts:
+        return False
+    last = stmts[-1]
+    if isinstance(last, (ast.Return, ast.Raise)):
+        return True
+    return isinstance(last, ast.If) and _ends(last.body) and _ends(last.orelse)
+
+
+def _stale_loop_variables(f, every: bool = False, deciding_only: bool = True, searches: set | None = None):
     """(loop, names) for the for-loops of f whose variables are read after the loop without being assigned again (deciding_only: read
-    where the value decides something - a test, the receiver or an argument of a call - not where it only feeds a message)"""
+    where the value decides something - a test, the receiver or an argument of a call - not where it only feeds a message).
+    A loop that is left by `break` is a search: after it the variables hold the element at which it stopped.  When its `else:`
+    (the loop ran to its end) never falls through, what follows the loop is reached from the break only and the variables are
+    not stale; otherwise the loop is reported with its names and its id is put in `searches` (the caller leaves the verdict open)."""
     out = []
     for lp in [n for n in walk_no_nested(f.node) if isinstance(n, ast.For)]:
+        if _breaks(lp):
+            if _ends(lp.orelse):
+                if every:
+                    out.append((lp, []))
+                continue
+            if searches is None:
+                continue
+            searches.add(id(lp))
         inside = {id(x) for x in ast.walk(lp)}
         tvars = {x.id for x in ast.walk(lp.target) if isinstance(x, ast.Name)} - {'_'}
         restored = {x.id for x in walk_no_nested(f.node) if isinstance(x, ast.Name) and isinstance(x.ctx, ast.Store) and id(x) not in inside and seq(x) > seq(lp)}
@@ -334,6 +375,58 @@ def _stale_loop_variables(f, every: bool = False, deciding_only: bool = True):
                         and (id(x) in deciding or not deciding_only)})
         if stale or every:
             out.append((lp, stale))
+    return out
+
+
+def _leaked_comprehension_variables(prog, f):
+    """(comprehension, names): variables of a comprehension of f that are read, where the value decides something, at the level of the
+    function although nothing binds them there (no assignment, no parameter, no loop, no name of the module, no builtin)"""
+    import builtins
+
+    a = f.node.args
+    bound = {x.arg for x in a.posonlyargs + a.args + a.kwonlyargs} | ({a.vararg.arg} if a.vararg else set()) | ({a.kwarg.arg} if a.kwarg else set()) | set(dir(builtins))
+    in_comp = set()
+    comps = []
+    for n in walk_no_nested(f.node):
+        if isinstance(n, (ast.ListComp, ast.SetComp, ast.DictComp, ast.GeneratorExp)):
+            in_comp |= {id(x) for x in ast.walk(n)}
+            comps += n.generators
+        elif isinstance(n, (ast.Import, ast.ImportFrom)):
+            bound |= {(al.asname or al.name).split('.')[0] for al in n.names}
+        elif isinstance(n, (ast.Global, ast.Nonlocal)):
+            bound |= set(n.names)
+        elif isinstance(n, ast.ExceptHandler) and n.name:
+            bound.add(n.name)
+    bound |= {x.id for x in walk_no_nested(f.node) if isinstance(x, ast.Name) and isinstance(x.ctx, ast.Store) and id(x) not in in_comp}
+    for st in f.module.tree.body:
+        for x in ([st] if isinstance(st, (ast.FunctionDef, ast.AsyncFunctionDef, ast.ClassDef, ast.Import, ast.ImportFrom)) else ast.walk(st)):
+            if isinstance(x, (ast.FunctionDef, ast.AsyncFunctionDef, ast.ClassDef)):
+                bound.add(x.name)
+            elif isinstance(x, (ast.Import, ast.ImportFrom)):
+                bound |= {(al.asname or al.name).split('.')[0] for al in x.names}
+            elif isinstance(x, ast.Name) and isinstance(x.ctx, ast.Store):
+                bound.add(x.id)
+    deciding = set()
+    for x in walk_no_nested(f.node):
+        parts = [x.test] if isinstance(x, (ast.If, ast.While, ast.IfExp, ast.Assert)) else [x.iter] if isinstance(x, ast.For) else []
+        if isinstance(x, ast.Call) and not unparse(x.func).startswith(('logger.', 'logging.', 'print', 'warnings.')) and not (isinstance(x.func, ast.Attribute) and x.func.attr in ('format', 'join')):
+            parts = [x.func] + list(x.args) + [k.value for k in x.keywords]
+        for p_ in parts:
+            todo = [p_]
+            while todo:
+                y = todo.pop()
+                if isinstance(y, ast.JoinedStr):
+                    continue
+                if isinstance(y, ast.Name) and id(y) not in in_comp:
+                    deciding.add(id(y))
+                todo.extend(ast.iter_child_nodes(y))
+    free = {x.id for x in walk_no_nested(f.node) if isinstance(x, ast.Name) and isinstance(x.ctx, ast.Load) and id(x) in deciding and x.id not in bound}
+    out = []
+    for g in comps:
+        names = sorted(free & {x.id for x in ast.walk(g.target) if isinstance(x, ast.Name)})
+        if names:
+            out.append((g, names))
+            free -= set(names)
     return out
 
 
@@ -442,6 +535,10 @@ def run(ctx: Ctx) -> None:
         errs = unparse(aud[0].targets[0].elts[0])
         gate = [n for n in walk_no_nested(gv.node) if isinstance(n, ast.If) and unparse(n.test) == errs and isinstance(n.body[-1], ast.Raise) and 'BiogemeError' in unparse(n.body[-1])]
         ok = len(gate) == 1 and cfg.dominates(cfg.node_of(aud[0]), cfg.node_of(gate[0])) and cfg.dominates(cfg.node_of(gate[0]), cfg.node_of(eng[0]))
+        # the list of findings goes from the audit to the gate untouched: nothing else mentions it (a statement that empties it, even in a log call)
+        if ok:
+            own = {id(x) for x in ast.walk(gate[0])} | {id(x) for x in ast.walk(aud[0])}
+            ok = not any(isinstance(x, ast.Name) and x.id == errs and id(x) not in own for x in ast.walk(gv.node))
     ctx.add('C12.R3', 'get_value_and_derivatives:gate', ok, gv, 'audit, then BiogemeError on any finding, then the engine' if ok else 'the audit gate does not dominate the engine call', 'gate')
     B = prog.cls('biogeme', 'BIOGEME')
     init = B.methods['__init__']
@@ -492,7 +589,7 @@ for _V in self.formulas.values():
         ca = cfg_of(au.node)
         rz = [n for n in walk_no_nested(au.node) if isinstance(n, ast.If) and unparse(n.test) == errs and any(isinstance(x, ast.Raise) and 'BiogemeError' in unparse(x) for x in n.body)]
         ok = ok and len(rz) == 1 and ca.must_pass(ca.node_of(loops[0]), {ca.node_of(rz[0])})
-    stale_au = [(lp, st_) for lp, st_ in _stale_loop_variables(au) if unparse(lp.iter).startswith('self.formulas')]
+    stale_au = [(lp, st_) for lp, st_ in _stale_loop_variables(au) if unparse(lp.iter).startswith('self.formulas')]  # (loops left by break are not listed)
     if not ok and stale_au:
         lp, st_ = stale_au[0]
         ctx.add('C12.R3', 'BIOGEME._audit', False, (au.file, lp.lineno), f'{", ".join(st_)} (variable of the loop over {unparse(lp.iter)}) is read after the loop has ended: the statements that follow the loop examine the last '
@@ -591,7 +688,9 @@ if not _OK:
                     inside = [lp for lp in walk_no_nested(f.node) if isinstance(lp, (ast.For, ast.While)) and any(x is n for s_ in lp.body for x in ast.walk(s_))]
                     # a contradiction when the loop is a test of every element (it can refuse one) and accepts while elements remain; a `while`
                     # loop that draws the elements itself, or a loop that never refuses, may be a search: left open
-                    sure = any(isinstance(lp, ast.For) and any(isinstance(x, ast.Return) and _verdict(x) is False for s_ in lp.body for x in ast.walk(s_)) for lp in inside)
+                    # ... as the plain last word of an iteration: under a condition of its own (`if <there is nothing to compare>: return True`)
+                    # the acceptance may be justified by that condition for all elements at once - left open
+                    sure = any(isinstance(lp, ast.For) and any(isinstance(x, ast.Return) and _verdict(x) is False for s_ in lp.body for x in ast.walk(s_)) and any(s_ is n for s_ in lp.body) for lp in inside)
                     ctx.add('C12.R5', f'{c.name}.{f.name}:verdict', (False if sure else None) if inside else True, (f.file, n.lineno),
                             'the positive verdict is issued after all loops have finished' if not inside else 'a positive verdict is returned from inside a loop: later elements are never examined', 'verdict', positive=bool(sure))
     # a loop variable read after its loop stands for the last element only: the test that uses it examines one pair, not all
@@ -599,10 +698,20 @@ if not _OK:
         for f in c.methods.values():
             if not f.name.startswith('check_'):
                 continue
-            mentioned = {id(lp): st_ for lp, st_ in _stale_loop_variables(f, every=True, deciding_only=False)}
-            for lp, stale in _stale_loop_variables(f, every=True):
+            searches: set = set()
+            mentioned = {id(lp): st_ for lp, st_ in _stale_loop_variables(f, every=True, deciding_only=False, searches=searches)}
+            for lp, stale in _stale_loop_variables(f, every=True, searches=searches):
+                if stale and id(lp) in searches:
+                    ctx.add('C12.R5', f'{c.name}.{f.name}:loop-variables@{unparse(lp.target)}', None, (f.file, lp.lineno),
+                            f'shape not recognised - expected: the variables of a loop are used inside it only ({", ".join(stale)} is read after a loop that `break` may have left at the element found)', 'search')
+                    continue
                 ctx.add('C12.R5', f'{c.name}.{f.name}:loop-variables@{unparse(lp.target)}', (None if mentioned.get(id(lp)) else True) if not stale else False, (f.file, lp.lineno),
                         'the variables of the loop are used inside it only' if not stale else f'{", ".join(stale)} (variable of the loop over {unparse(lp.iter)[:40]}) is read after the loop has ended: what follows examines the last element only, not every element', 'stale')
+            # a variable of a comprehension read outside it: the normal form writes a collecting loop as a comprehension, so this is a
+            # variable of that loop read after it (in the source as written a comprehension variable does not exist outside)
+            for comp, names in _leaked_comprehension_variables(prog, f):
+                ctx.add('C12.R5', f'{c.name}.{f.name}:loop-variables@{unparse(comp.target)}', False, (f.file, getattr(comp.iter, 'lineno', f.line)),
+                        f'{", ".join(names)} (variable of the loop over {unparse(comp.iter)[:40]}) is read after the loop has ended: what follows examines the last element only, not every element', 'stale-collected')
     cp = prog.func('nests', 'NestsForNestedLogit.check_partition')
     ok = body_is(cp.body, """
 _VU, _MU = self.check_union()
@@ -739,6 +848,8 @@ return (_ERRS, _WARNS)
         skipped = {id(x) for b_ in other_branch for x in ast.walk(b_)} | {id(x) for x in ast.walk(n.test)}
         again = [x for x in walk_no_nested(ll.node) if id(x) not in skipped and x is not n and isinstance(x, (ast.If, ast.IfExp, ast.While, ast.Assert, ast.comprehension))
                  and any(_both(y) for y in ([x.test] if not isinstance(x, ast.comprehension) else x.ifs))]
+        # ... nor computes anything else from both (a value kept in a local that is bound more than once is not seen through by the tests above)
+        again += [x for x in walk_no_nested(ll.node) if id(x) not in skipped and isinstance(x, (ast.BinOp, ast.Compare, ast.BoolOp, ast.Call)) and 'self.util' in unparse(x) and 'self.av' in unparse(x)]
         u, a = witness
         ctx.add('C12.R1', 'LogLogit.audit:same-keys', None if again else False, (ll.file, n.lineno),
                 f'the consistency test {unparse(t)} is not an equality of the two key sets: utilities for {sorted(u)} with availabilities for {sorted(a)} pass it as equal key sets do - '
